@@ -14,17 +14,32 @@ COMMON_ASSUMPTIONS = [
     "NeoVM integers are 256-bit signed; runtime.Notify enforces manifest event types (all hardforks enabled, as on the neotest chain)",
 ]
 
+HOOK_COMMITS = []
+
+NOT_APPLICABLE = []
+
+TECH_INV = "machine-checked proof in Rocq (Coq): invariant by induction over histories + model/implementation correspondence"
+
 PROPS = {
     "C01": {
+        "level_text": "Invariant (supply = sum of balances, no negative balance, supply delta, inert failures, notification replay) proved in Coq for every history of the Balance model; model tied to the code by a differential correspondence check on the compiled contract",
+        "level_note": "Trusted: Coq kernel; hand-written model validated by seeded differential runs against the real contract on the neo-go VM; VM atomicity, CheckWitness and Notify type checks as modelled; premise: lock targets are fresh",
+        "technique": TECH_INV,
         "harness_test": "TestC01",
         "explanation": "Invariant proved by induction over all histories (Proofs/Balance.v); correspondence on seeded histories incl. the F1 witness corpus",
         "assumptions": ["quantifier's premise: lock targets hold nothing when locked (wf_bal); Null address arguments to Alphabet-only methods are outside the model's op type"],
     },
     "C02": {
+        "level_text": "One-step authorisation theorem (a balance decreases only with the holder's witness or the Alphabet's; the public transfer can lower only a witnessed from) proved for every state, context and argument of the Balance model; correspondence as for C01",
+        "level_note": "Trusted: Coq kernel; hand-written model validated differentially; witness scopes not modelled",
+        "technique": "machine-checked proof in Rocq (Coq): one-step theorem for all states + model/implementation correspondence",
         "harness_test": "TestC02",
         "explanation": "One-step authorisation theorem valid from every state, hence over every history",
     },
     "C09": {
+        "level_text": "Lock lifecycle theorems (lock creates exactly one fresh lock account; a tick releases every due lock in full to its parent, exactly once, and touches nothing else; early ticks are inert; burns reduce/delete; frame) proved for every state of the Balance model, the epoch loop by induction over the storage snapshot; until=0 refuted (known finding); correspondence on the compiled contract with ticks",
+        "level_note": "Trusted: Coq kernel; hand-written model validated differentially; premise nochain (no due lock has a due lock as parent); until=0 never released is a recorded finding",
+        "technique": TECH_INV,
         "harness_test": "TestC09",
         "explanation": "Lock lifecycle theorems over the epoch loop (snapshot iteration)",
     },
